@@ -84,7 +84,8 @@ USERINFO = ["", "u@", "u:p@", "u:@", ":p@", "u%40x:p%3Ay@", "us%20er:pa%2Fss@", 
 HOSTS = ["example.com", "h", "127.0.0.1", "[::1]", "[fe80::1%25eth0]", "[2001:db8::ff00:42:8329]",
          "xn--bcher-kva.example", "EXAMPLE.Com", "bücher.example", "a.b.c.", "1.2.3", "[::ffff:1.2.3.4]",
          "h_x", "a-b.c", "", "[v1.x]", "h%41", "0x7f.1", "[0:0:0:0:0:0:0:1]"]
-PORTS = ["", ":80", ":443", ":21", ":8080", ":0", ":65535", ":65536", ":", ":081", ":x", ":-1"]
+PORTS = ["", "", "", ":80", ":443", ":21", ":8080", ":0", ":65535", ":", ":081", ":80", ":8443"]
+BAD_PORTS = [":65536", ":x", ":-1", ": 1", ":+1", ":1_0"]
 PATHS = ["", "/", "/a", "/a/b", "/a/", "//a", "/a//b", "/a%2Fb/c", "/%C3%A9", "/a;p=1", "/a+b", "/a b",
          "/.", "/..", "/a/./b/../c", "/%2E/%2e%2E/x", "/a.b.c", "/.hidden", "/x.tar.gz", "/é/ü.txt", "/a%zz",
          "/a%", "/%41%2f", "/a:b", "/@", "/a?", "a", "a/b", "../a", "./a", "a:b", "a/../..", "/a/b/c/d.e.f"]
@@ -100,7 +101,7 @@ def structured_urls(rng, n):
         has_auth = rng.random() < 0.8
         s = sc + ":" if sc else ""
         if has_auth:
-            s += "//" + rng.choice(USERINFO) + rng.choice(HOSTS) + rng.choice(PORTS)
+            s += "//" + rng.choice(USERINFO) + rng.choice(HOSTS) + (rng.choice(BAD_PORTS) if rng.random() < 0.04 else rng.choice(PORTS))
         s += rng.choice(PATHS) + rng.choice(QUERIES) + rng.choice(FRAGMENTS)
         if rng.random() < 0.1:
             # mutate one character
@@ -123,3 +124,133 @@ def delimiter_strings(maxlen, alphabet=None):
 def soup_urls(rng, n, maxlen=14):
     pool = DELIM_ALPHABET + ["h", "v", "f", "+", "&", "=", ";", " ", "\t", "é", "%41", "%2F", "::", "//", "http:", "[::1]", "80", "-"]
     return ["".join(rng.choice(pool) for _ in range(rng.randint(0, maxlen))) for _ in range(n)]
+
+
+# ---------------------------------------------------------------------------------
+# programs (operation sequences)
+# ---------------------------------------------------------------------------------
+TEXTS = ["", "a", "a b", "é", "a/b", "a%2Fb", "%", "%41", "a+b", "a&b=c", "a;b", "x:y", "@", "#", "?", ".", "..",
+         "./a", "../a", "a/./b", "a//b", "/abs", "name.txt", ".hidden", "x.tar.gz", "a.", "[", "]", "a\tb", "\x00",
+         "日本", "😀", "a\ud800b", "%zz", "%2", "%C3%A9", "A", "~", "!$'()*,", "\"<>\\^`{|}", " "]
+HOST_ARGS = ["h", "example.com", "EXAMPLE.COM", "bücher.example", "127.0.0.1", "::1", "fe80::1%eth0", "[::1]", "",
+             "a b", "a/b", "a@b", "a:b", "h_x", "Éx_.Com", "a／b", "1.2.3.4", "2001:DB8::1", "a%41", "a%zz", "xn--x-9fa.com",
+             "fe80::1%a/b", "h.", "例え.テスト"]
+PORT_ARGS = [None, 0, 1, 21, 80, 443, 8080, 65535, 65536, -1, True, False, 10 ** 6]
+SCHEME_ARGS = ["http", "https", "HTTP", "ws", "wss", "ftp", "file", "x", "", "mailto", "a+b", "é", "1a", "ht tp"]
+
+
+def rand_qvar(rng):
+    r = rng.random()
+    if r < 0.6:
+        return rng.choice(TEXTS)
+    if r < 0.8:
+        return rng.choice([0, 1, -1, 42, 10 ** 12])
+    if r < 0.94:
+        return ["float", str(float(rng.choice([0.5, 1.0, -2.25, 1e20, 1e-7, 3.14])))]
+    if r < 0.955:
+        return rng.choice([["inf"], ["nan"]])
+    if r < 0.97:
+        return rng.choice([True, False])
+    if r < 0.985:
+        return None
+    return ["other"]
+
+
+def rand_qarg(rng, simple=False):
+    r = rng.random()
+    if r < 0.08:
+        return None
+    if r < 0.30:
+        return rng.choice(["", "a=1", "a=1&b=2", "a=1&a=2", "x", "a+b=c%20d", "é=ü", "a=%zz", "k=%26%3D", "a=1&b", "a b=c d",
+                           "a=1;b=2", "%41=%42", "a=#", "a=b=c"])
+    keys = ["a", "b", "c", "a b", "é", "k&", "k=", "", "x+y"]
+    n = rng.randint(0, 3)
+    items = []
+    for _ in range(n):
+        k = rng.choice(keys)
+        if simple:
+            v = rng.choice(TEXTS[:20] + [1, 2])
+        elif rng.random() < 0.15:
+            v = ["list"] + [rand_qvar(rng) for _ in range(rng.randint(0, 3))]
+        else:
+            v = rand_qvar(rng)
+        items.append([k, v])
+    if r < 0.64:
+        return ["map"] + items
+    if r < 0.98:
+        return ["seq"] + items
+    if r < 0.99:
+        return ["bytes"]
+    return ["other"]
+
+
+GOOD_HOSTS = ["h", "example.com", "EXAMPLE.COM", "bücher.example", "127.0.0.1", "::1", "fe80::1%eth0", "h_x", "1.2.3.4",
+              "2001:DB8::1", "xn--x-9fa.com", "h.", "例え.テスト", "a-b.c"]
+GOOD_PORTS = [None, 0, 1, 21, 80, 443, 8080, 65535]
+GOOD_SCHEMES = ["http", "https", "HTTP", "ws", "wss", "ftp", "file", "x", "", "a+b"]
+
+
+def pick(rng, good, any_, p_bad=0.12):
+    return rng.choice(any_) if rng.random() < p_bad else rng.choice(good)
+
+
+def rand_op(rng):
+    name = rng.choice(["with_scheme", "with_user", "with_password", "with_host", "with_port", "with_path", "with_query",
+                       "extend_query", "update_query", "without_query_params", "with_fragment", "with_name", "with_suffix",
+                       "parent", "joinpath", "div", "origin", "relative", "pickle", "with_path", "with_query", "div"])
+    t = lambda: rng.choice(TEXTS)  # noqa: E731
+    b = lambda: rng.random() < 0.3  # noqa: E731
+    if name == "with_scheme":
+        return ["op", name, pick(rng, GOOD_SCHEMES, SCHEME_ARGS)]
+    if name in ("with_user", "with_password", "with_fragment"):
+        return ["op", name, rng.choice([None, t(), t()])]
+    if name == "with_host":
+        return ["op", name, pick(rng, GOOD_HOSTS, HOST_ARGS)]
+    if name == "with_port":
+        return ["op", name, pick(rng, GOOD_PORTS, PORT_ARGS)]
+    if name == "with_path":
+        return ["op", name, t(), b(), b(), b()]
+    if name in ("with_query", "extend_query", "update_query"):
+        return ["op", name, rand_qarg(rng)]
+    if name == "without_query_params":
+        return ["op", name, [rng.choice(["a", "b", "a b", "é", "zz"]) for _ in range(rng.randint(0, 2))]]
+    if name in ("with_name", "with_suffix"):
+        x = t() if name == "with_name" else rng.choice(["", ".", ".py", ".tar.gz", "py", ".a b", ".é", "./x", ".%41", ".."])
+        return ["op", name, x, b(), b()]
+    if name == "joinpath":
+        return ["op", name, [t() for _ in range(rng.randint(0, 3))], b()]
+    if name == "div":
+        return ["op", name, t()]
+    return ["op", name]
+
+
+def rand_ctor(rng):
+    r = rng.random()
+    if r < 0.55:
+        return ["url", structured_urls(rng, 1)[0]]
+    if r < 0.65:
+        return ["enc", structured_urls(rng, 1)[0]]
+    # build
+    use_auth = rng.random() < 0.2
+    host = "" if use_auth else pick(rng, GOOD_HOSTS, HOST_ARGS)
+    q = rand_qarg(rng) if rng.random() < 0.3 else None
+    qs = rng.choice(["", "", "a=1", "a b=c", "x=%41"]) if q is None or rng.random() < 0.1 else ""
+    return ["build", pick(rng, GOOD_SCHEMES, SCHEME_ARGS), rng.choice(["u:p@h:81", "h", "[::1]:80", "u@h", "u:@h:1", "a b@h", ":1"]) if use_auth else "",
+            rng.choice([None, None, "u", "us er", "", "é:x"]), rng.choice([None, None, "p", "p@ss", ""]),
+            host, pick(rng, GOOD_PORTS, PORT_ARGS) if (rng.random() < 0.5 and host) else None,
+            rng.choice(["", "/", "/a/b", "/a b", "/../x", "/a%2Fb", "/é", "/a/./b", "/x.y"] + (["a", "."] if rng.random() < 0.2 else [])), q, qs,
+            rng.choice(["", "f", "a b", "#", "é"]), rng.random() < 0.15]
+
+
+def random_programs(rng, n, maxops=4):
+    out = []
+    for _ in range(n):
+        prog = [["push", rand_ctor(rng)]]
+        for _ in range(rng.randint(0, maxops)):
+            if rng.random() < 0.12:
+                prog.append(["push", rand_ctor(rng)])
+                prog.append(["join"])
+            else:
+                prog.append(rand_op(rng))
+        out.append(prog)
+    return out
